@@ -221,6 +221,65 @@ def real_process_runs(chk, prop, n):
                 res["logs"].append(False)
         return res
 
+    async def startup_cancel(wd):
+        """cancel while asyncio is still connecting the pipes of the freshly forked task process (only the speed of
+        loop.connect_read_pipe is changed — a slow machine — everything else is the real code): the script's child
+        must not survive, the worker must finish and give its core back"""
+        loop = asyncio.get_running_loop()
+        orig = loop.connect_read_pipe
+
+        async def slow(*a, **kw):
+            await asyncio.sleep(0.3)
+            return await orig(*a, **kw)
+        loop.connect_read_pipe = slow
+        try:
+            s = Scheduler(wd, 1)
+            go, late = os.path.join(wd, "GO"), os.path.join(wd, "late")
+            tid = await s.enqueue_task("c", "(while [ ! -e %s ]; do sleep 0.02; done; echo late > %s) & wait" % (go, late), wd, None, [])
+            for _ in range(100000):
+                if s.task_states[tid] == LocalStatus.RUNNING:
+                    break
+                await asyncio.sleep(0)
+            await asyncio.sleep(0.1)
+            await s.cancel_task(tid)
+            done, pending = await asyncio.wait([s.tasks[tid]], timeout=8)
+            free = s.cores_ressource._value
+            open(go, "w").close()
+            for _ in range(20):
+                await asyncio.sleep(0.05)
+                if os.path.exists(late):
+                    break
+            for t in pending:
+                t.cancel()
+            return {"state": s.task_states[tid].name, "worker_hung": bool(pending), "free_cores": free, "child_survived": os.path.exists(late)}
+        finally:
+            loop.connect_read_pipe = orig
+
+    wd = tempfile.mkdtemp(prefix="gwfverif-real-")
+    os.makedirs(os.path.join(wd, ".gwf", "logs"))
+    try:
+        res = asyncio.run(asyncio.wait_for(startup_cancel(wd), 60))
+    except Exception as exc:  # noqa
+        res = {"error": repr(exc)}
+    finally:
+        shutil.rmtree(wd, ignore_errors=True)
+    chk.count("real-process-startup-cancel")
+    fails = []
+    if res.get("error"):
+        fails.append("C13:real-run-did-not-finish:" + res["error"][:80])
+    else:
+        if res["child_survived"]:
+            fails.append("C13:child-process-survives-cancel-or-timeout")
+        if res["worker_hung"]:
+            fails.append("C13:task-never-reaches-final-state")
+        if res["worker_hung"] or res["free_cores"] != 1:
+            fails.append("C12:core-not-given-back-after-cancel")
+    mine = [f for f in fails if owned_by(prop, f)]
+    if mine:
+        chk.violation({"kind": "real-process", "conjunct": mine[0].split(":")[1]},
+                      {"kind": "history", "input": {"real_process_scenario": "startup-cancel", "cores": 1}, "implementation": res,
+                       "what": "cancel request while the task's process is being started: " + ", ".join(mine)})
+
     for i in range(n):
         wd = tempfile.mkdtemp(prefix="gwfverif-real-")
         os.makedirs(os.path.join(wd, ".gwf", "logs"))
@@ -303,5 +362,6 @@ def replay_prop(chk, prop, rule, data):
     if "ops" in inp:
         check_pool(chk, prop, [(inp["cores"], [tuple(o) for o in inp["ops"]], inp.get("fine", False), inp.get("yield_in_spawn", False))], "replay")
     else:
-        real_process_runs(chk, prop, inp.get("real_process_scenario", 0) + 1)
+        rs = inp.get("real_process_scenario", 0)
+        real_process_runs(chk, prop, (rs + 1) if isinstance(rs, int) else 0)
     return chk.finish()
